@@ -3040,6 +3040,9 @@ class Set(Collection):
                 bit = item._bits_except_volatile_[reverse]
                 assert item._wbits_ is not None
                 if not item._wbits_ & bit: item._rbits_ |= bit
+        elif reverse.is_collection:
+            rentity = reverse.entity
+            if rentity._subclasses_: rentity._load_many_(setdata)  # items known by key only (from the link table) get their real class
         return set(setdata)
     @cut_traceback
     def __get__(attr, obj, cls=None):
